@@ -44,6 +44,9 @@ def configs(tier, seed):
     # daemon start-up: the pipeline's write processor is built (as service.setupPipeline does), then the receiving thread's
     # first datapoint and the writer thread's first pass meet - both must end up talking to the same cache
     cfgs.append(dict(name='%s/startup' % st, strategy=st, mode='startup', max='inf'))
+    # RELAY_CACHE_METRICS: self-metrics wait in the relay part's buffer while no destination is up and are stored into the
+    # cache by a handler of the resume event - that is, from inside the drain that made room, on the writer thread
+    cfgs.append(dict(name='%s/relaybuf' % st, strategy=st, mode='relaybuf', max=4))
     # long histories (hundreds of operations, dozens of drains) under a handful of schedules
     cfgs.append(dict(name='%s/long' % st, strategy=st, mode='long', max='inf' if STRATEGIES.index(st) % 2 else 40))
   return cfgs
@@ -280,8 +283,22 @@ def oracle(h):
 
 def run_config(cfg, res):
   from vlib import boot, cachesim
-  ns = boot.boot('carbon-cache', {'CACHE_WRITE_STRATEGY': cfg['strategy'], 'MAX_CACHE_SIZE': cfg.get('max', 'inf'), 'USE_FLOW_CONTROL': False,
-                                  'MIN_TIMESTAMP_LAG': cfg.get('lag', 0), 'MIN_TIMESTAMP_RESOLUTION': cfg.get('res', 0)})
+  conf = {'CACHE_WRITE_STRATEGY': cfg['strategy'], 'MAX_CACHE_SIZE': cfg.get('max', 'inf'), 'USE_FLOW_CONTROL': False,
+          'MIN_TIMESTAMP_LAG': cfg.get('lag', 0), 'MIN_TIMESTAMP_RESOLUTION': cfg.get('res', 0)}
+  if cfg.get('mode') == 'relaybuf':
+    conf.update({'USE_FLOW_CONTROL': True, 'RELAY_CACHE_METRICS': True, 'DYNAMIC_ROUTER': True, 'RELAY_METHOD': 'consistent-hashing',
+                 'DESTINATIONS': '127.0.0.1:2004:a'})
+  ns = boot.boot('carbon-cache', conf)
+  if cfg.get('mode') == 'relaybuf':
+    world = cachesim.World(ns, full_pipeline=True)
+    r = gen.rng(cfg['seed'], 'C02r', cfg['name'])
+    for i in range(3 if cfg['tier'] == 'quick' else 12):
+      ops, ndr = gen_history(r, short=False)
+      for _ in range(r.randint(3, 8)):
+        ops.insert(r.randrange(0, len(ops) + 1), ('relaybuf',))
+      res.count('histories_with_relay_buffer')
+      explore(world, res, ops, ndr + 3, r, 'quick', oracle, False, cfg['strategy'] + '/relaybuf')
+    return
   if cfg.get('mode') == 'writer':
     return run_writer_config(cfg, res, cachesim.World(ns, trace_files=('cache.py', 'events.py', 'writer.py')))
   if cfg.get('mode') == 'startup':
